@@ -151,6 +151,35 @@ Definition run_pfcase (ts : list (list (nat * nat))) (fscripts : list fscript) :
      w_req := req (psh s2); w_proc := proc (psh s2);
      w_stats := [] |}.
 
+(* mode 7 (round 5, second pass): the PROCESSOR model of C12/ProcModel.v on the walker regenerated from processor.rs /
+   minidump-unwind (Gen/C12Processor.v).  The case's dump has one thread per task and one frame per lookup, each frame inside
+   its module and outside the module's CFI ranges: walk_stack asks fill_symbol for the frame's module, get_caller_frame
+   asks walk_frame for the same module (and then follows the frame pointer).  The answers per frame are the two
+   identical ones of these lookups ([evens] keeps one); the stats are the snapshot of the LAST stats read of
+   into_process_state (after the join_all). *)
+From RM Require Import C12.ProcModel Gen.C12Processor.
+Fixpoint evens {A : Type} (l : list A) : list A :=
+  match l with
+  | x :: r => x :: (match r with _ :: r' => evens r' | [] => [] end)
+  | [] => []
+  end.
+Definition run_proccase (ts : list (list key)) (scripts : list script) (nleaf : nat) : c12_out :=
+  let d := map (map (fun k => {| f_module := Some k; f_caller := [(EWalk, k)] |})) ts in
+  let base := mk_config [] scripts in
+  let pc := proc_pc src_walker d base in
+  match process src_program src_walker d base (S (work (cfg pc))) with
+  | Some (s, snaps) =>
+      {| o_mid_req := 0; o_mid_proc := 0; o_mid_done := length snaps;
+         o_log := calls (psh s);
+         o_results := map (fun t => evens (results (psh s) t)) (seq 0 (length ts));
+         o_req := req (psh s); o_proc := proc (psh s);
+         o_stats := stats_list nleaf (last snaps (fun _ => None));
+         o_rounds := 0; o_hung := negb (pall_done pc s) |}
+  | None =>
+      {| o_mid_req := 0; o_mid_proc := 0; o_mid_done := 0; o_log := []; o_results := []; o_req := 0; o_proc := 0;
+         o_stats := []; o_rounds := 0; o_hung := true |}
+  end.
+
 (* glue for the OCaml driver (decimal text <-> nat goes through Coq's Z; see ocaml/zconv.ml) *)
 From Coq Require Import ZArith.
 Definition nat_of_z (x : Z) : nat := Z.to_nat x.
